@@ -115,7 +115,9 @@ class Sim:
             # processes create it themselves - creating it is a seam like any other
             self.cache = os.path.join(self.cache_root, "fresh", "cache")
         self.tmp = core.scratch_dir("jittmp-")
-        self.fault_free = not [f for f in self.faults if f["kind"] != "stall"] and not any(
+        # a stall is no fault; a failing dlopen in one process (load-fail) touches no build and no
+        # file, so everything the others are promised still holds
+        self.fault_free = not [f for f in self.faults if f["kind"] not in ("stall", "load-fail")] and not any(
             p["kind"] not in ("warm", "stale-failed", "warm+stale-failed", "stale-failed+complete-so")
             for p in scn.get("pre", []))
         self.keep_cache = False
@@ -640,8 +642,19 @@ class Sim:
                 self.bump("probe_stdout_not_restored_after_disk_or_interrupt")
             else:
                 self.violate("I-GLOBAL/stdout", f"process {p.idx} request {cur['req']}: sys.stdout not restored")
+        if out.get("earlier_digest_same") is False:
+            self.violate("I-RES", f"process {p.idx}: the objects an earlier request of this process returned no "
+                                  f"longer compute what they computed then (after request {cur['req']}, "
+                                  f"{out.get('earlier_digest_error') or 'other results'})")
+        if out.get("fd_delta"):
+            self.bump("probe_fd_delta_nonzero")
+        if out.get("new_jit_sys_modules"):
+            self.bump("probe_jit_module_in_sys_modules")
         for flag, key in (("cwd_same", "I-GLOBAL/cwd"), ("stderr_same", "I-GLOBAL/stderr"),
-                          ("environ_same", "I-GLOBAL/environ"), ("root_level_same", "I-GLOBAL/root-level")):
+                          ("environ_same", "I-GLOBAL/environ"), ("root_level_same", "I-GLOBAL/root-level"),
+                          ("warnings_filters_same", "I-GLOBAL/warnings-filters"),
+                          ("ffcx_handlers_same", "I-GLOBAL/ffcx-logger-handlers"),
+                          ("logging_disable_same", "I-GLOBAL/logging-disable")):
             if not out.get(flag, True):
                 if exempt:
                     self.bump("probe_" + flag + "_violated_after_disk_error")
@@ -754,7 +767,8 @@ class Sim:
                 kwargs = {"cffi_libraries": ["jitsim_library_that_does_not_exist"]}
                 self.log.add(round(self.now, 6), p.idx, "FAULT:bad-library")
         self.send(p, {"cmd": "request", "req": rq["req"], "timeout": rq["timeout"], "now": self.now,
-                      "cache_arg": self.cache_arg(p), "kwargs": kwargs})
+                      "cache_arg": self.cache_arg(p), "kwargs": kwargs,
+                      "bare_root": str(p.name) in (self.scn.get("bare_root") or [])})
         msg = self.recv(p)
         if msg is None:
             self.reap(p)
@@ -878,7 +892,7 @@ class Sim:
             # H-ALL
             for p in self.procs:
                 for o in p.outcomes:
-                    if o["result"] == "returned":
+                    if o["result"] == "returned" or o.get("faulted"):
                         continue
                     if o["result"] == "raised" and o["exc"] == "TimeoutError":
                         self.bump("probe_legit_timeout_in_fault_free_run")
